@@ -291,7 +291,9 @@ def _direct_variant_paths(ctx, t):
                 continue
             if root["t"] == "id" and root["s"] == "Self":
                 return True
-            if root["t"] == "var" and _var_role(ctx, t, root)[0] in ("Ident",):
+            # `derive_more::core::ops::#trait_ident::#method_ident` is a path *into the facade*, not `#Enum::#Variant`
+            opens = not (i >= 5 and seq[i - 4]["t"] == "p" and seq[i - 4]["c"] == ":" and seq[i - 5]["t"] == "p" and seq[i - 5]["c"] == ":")
+            if root["t"] == "var" and opens and _var_role(ctx, t, root)[0] in ("Ident",):
                 return True
         # `#ident #( :: #variant )*` (optional variant segment)
         if x["t"] == "rep" and i >= 1 and seq[i - 1]["t"] == "var":
